@@ -32,6 +32,14 @@
 (*                    scheduling the subscriber's own subscribe() call     *)
 (*                    holds the trampoline, so even a cold source emits    *)
 (*                    only after the action ran                            *)
+(*   Which = "pandas" rs.ops.from_pandas(df) | rs.ops.to_pandas(): every    *)
+(*                    row of the frame as one item, in order; to_pandas    *)
+(*                    emits exactly one frame holding the items at         *)
+(*                    completion -- and nothing at all for an empty source *)
+(*   Which = "walk"   rs.io.walk(top): every file below top exactly once,  *)
+(*                    the files of a directory together (one os.walk       *)
+(*                    entry) and before the files of its sub-directories;  *)
+(*                    the order among siblings is the file system's        *)
 (***************************************************************************)
 EXTENDS Integers, Sequences, FiniteSets, TLC
 
@@ -39,7 +47,8 @@ CONSTANTS Which,        \* "iter" | "deque" | "cache" | "run" | "onsub"
           Vals,         \* item values (positive integers); 0 stands for None
           MaxLen,       \* length of the source
           Extend,       \* deque: extend mode (items are sequences)
-          StrItems      \* cache: the items are strings (sys.intern) - None then always raises
+          StrItems,     \* cache: the items are strings (sys.intern) - None then always raises
+          TreeId        \* walk: which of the directory trees below
 
 VARIABLES src,      \* the source as a sequence of events: <<"n", v>>, <<"x", code>> (raises), implicit end
           pos,      \* events consumed
@@ -51,7 +60,8 @@ VARIABLES src,      \* the source as a sequence of events: <<"n", v>>, <<"x", co
           done
 vars == <<src, pos, disposeAt, out, buf, ids, acted, done>>
 
-Items == IF Which = "deque" /\ Extend
+Items == IF Which = "pandas" THEN {<<a, b>> : a, b \in Vals}
+         ELSE IF Which = "deque" /\ Extend
          THEN {<<>>} \cup {<<a>> : a \in Vals} \cup {<<a, b>> : a, b \in Vals}
          ELSE IF Which = "cache" THEN Vals \cup {0} ELSE Vals
 
@@ -64,9 +74,25 @@ Sources ==
     IN plain \cup (IF Which \in {"iter", "deque", "run"}
                    THEN {Append(p, <<"x", 7>>) : p \in {r \in plain : Len(r) < MaxLen}} ELSE {})
 
+(* ---- directory trees for walk: path (sequence of names) -> files and sub-directories ---- *)
+Dir(fs, ds) == [files |-> fs, dirs |-> ds]
+Tree ==
+    CASE TreeId = 1 -> (<<>> :> Dir({"f1", "f2"}, {}))
+      [] TreeId = 2 -> (<<>> :> Dir({"f1"}, {"a"})) @@ (<<"a">> :> Dir({"f2", "f3"}, {}))
+      [] TreeId = 3 -> (<<>> :> Dir({}, {"a"})) @@ (<<"a">> :> Dir({"f1"}, {"b"}))
+                       @@ (<<"a", "b">> :> Dir({"f2"}, {}))
+      [] TreeId = 4 -> (<<>> :> Dir({"f1"}, {"a", "b"})) @@ (<<"a">> :> Dir({"f2"}, {}))
+                       @@ (<<"b">> :> Dir({"f3", "f4"}, {}))
+      [] TreeId = 5 -> (<<>> :> Dir({}, {}))
+      [] TreeId = 6 -> (<<>> :> Dir({"f1"}, {"a", "b"})) @@ (<<"a">> :> Dir({}, {"c"}))
+                       @@ (<<"a", "c">> :> Dir({"f2"}, {})) @@ (<<"b">> :> Dir({"f3"}, {}))
+
+Orders(S) == {s \in [1..Cardinality(S) -> S] : \A a, b \in 1..Cardinality(S) : a # b => s[a] # s[b]}
+
 Init ==
-    /\ src \in Sources
-    /\ pos = 0 /\ out = <<>> /\ buf = <<>> /\ ids = <<>> /\ acted = 0 /\ done = FALSE
+    /\ src \in (IF Which = "walk" THEN {<<>>} ELSE Sources)
+    /\ pos = 0 /\ out = <<>> /\ ids = <<>> /\ acted = 0 /\ done = FALSE
+    /\ buf = IF Which = "walk" THEN << <<>> >> ELSE <<>>
     /\ disposeAt \in (IF Which = "iter" THEN 0..MaxLen ELSE {0})
 
 Delivered == Cardinality({q \in 1..Len(out) : out[q][1] = "n"})
@@ -114,6 +140,8 @@ Step ==
                       /\ ids' = Append(ids, ident)
                       /\ buf' = IF known THEN buf ELSE Append(buf, <<v, pos + 1>>)
                       /\ UNCHANGED <<acted, done>>
+         [] Which = "pandas" ->       \* to_pandas = to_list | filter(len) | DataFrame
+              /\ buf' = Append(buf, e[2]) /\ UNCHANGED <<out, ids, acted, done>>
          [] Which = "run" ->
               IF e[1] = "x"
               THEN /\ out' = <<"e", e[2]>> /\ done' = TRUE /\ UNCHANGED <<buf, ids, acted>>
@@ -123,15 +151,26 @@ Step ==
     /\ pos' = pos + 1
     /\ UNCHANGED <<src, disposeAt>>
 
+(* os.walk, top-down: one entry per directory (its files, in listing order), then its
+   sub-directories depth first, in listing order *)
+Visit ==
+    /\ Which = "walk" /\ ~done /\ buf # <<>>
+    /\ LET d == Head(buf) IN
+       \E fo \in Orders(Tree[d].files), dord \in Orders(Tree[d].dirs) :
+          /\ out' = out \o [q \in 1..Len(fo) |-> <<"n", Append(d, fo[q])>>]
+          /\ buf' = [q \in 1..Len(dord) |-> Append(d, dord[q])] \o Tail(buf)
+    /\ UNCHANGED <<src, pos, disposeAt, ids, acted, done>>
+
 Finish ==
-    /\ ~done /\ pos = Len(src) /\ (Which = "onsub" => acted = 1)
+    /\ ~done /\ pos = Len(src) /\ (Which = "onsub" => acted = 1) /\ (Which = "walk" => buf = <<>>)
     /\ CASE Which = "deque" -> out' = out \o [q \in 1..Len(buf) |-> <<"n", buf[q]>>] \o << <<"c">> >>
          [] Which = "run"   -> out' = IF buf = <<>> THEN <<"r", 0>> ELSE <<"r", buf[1]>>
+         [] Which = "pandas" -> out' = IF buf = <<>> THEN << <<"c">> >> ELSE << <<"n", buf>>, <<"c">> >>
          [] OTHER           -> out' = Append(out, <<"c">>)
     /\ done' = TRUE
     /\ UNCHANGED <<src, pos, disposeAt, buf, ids, acted>>
 
-Next == Act \/ Step \/ Finish
+Next == Act \/ Step \/ Visit \/ Finish
 Spec == Init /\ [][Next]_vars
 
 -----------------------------------------------------------------------------
@@ -162,6 +201,27 @@ CacheStatement ==
         /\ out = [q \in 1..Len(SrcItems) |-> <<"n", SrcItems[q]>>] \o << <<"c">> >>
         /\ \A a, b \in 1..Len(ids) : (SrcItems[a] = SrcItems[b]) <=> (ids[a] = ids[b])
         /\ \A a \in 1..Len(ids) : ids[a] <= a /\ SrcItems[ids[a]] = SrcItems[a]
+
+PandasStatement ==
+    (Which = "pandas" /\ done) =>
+        out = IF SrcItems = <<>> THEN << <<"c">> >> ELSE << <<"n", SrcItems>>, <<"c">> >>
+
+AllFiles == UNION {{Append(d, f) : f \in Tree[d].files} : d \in DOMAIN Tree}
+IsPrefixOf(a, b) == Len(a) <= Len(b) /\ SubSeq(b, 1, Len(a)) = a
+DirOf(p) == SubSeq(p, 1, Len(p) - 1)
+
+WalkStatement ==
+    (Which = "walk" /\ done) =>
+        LET n == Len(out) - 1 IN
+        /\ out[Len(out)] = <<"c">>
+        /\ {out[q][2] : q \in 1..n} = AllFiles /\ n = Cardinality(AllFiles)      \* each file once
+        /\ \A a, b \in 1..n :
+              \* the files of one directory come together ...
+              /\ (a < b /\ DirOf(out[a][2]) = DirOf(out[b][2]))
+                    => \A c \in a..b : DirOf(out[c][2]) = DirOf(out[a][2])
+              \* ... and before those of its sub-directories
+              /\ (DirOf(out[a][2]) # DirOf(out[b][2]) /\ IsPrefixOf(DirOf(out[a][2]), DirOf(out[b][2])))
+                    => a < b
 
 RunStatement ==
     (Which = "run" /\ done) =>
